@@ -13,7 +13,7 @@ EXPLANATION = (
     "every file-system write primitive passes a context wrapper (with_context/context) naming the operation's file on its way to "
     "cmd_push's return; (R4) names are recorded only after the driver returned Ok, and the parallel driver returns Ok only when no "
     "worker error is pending; (R5) main turns every error into exit status 1 and its reporting path has no panic site of its own. "
-    "Not decided: errors the OS reports only at close(2) (Rust's File drops them; no sync_all), poisoned-mutex unwraps after another "
+    "(R8) an error put aside in the state of the run is taken out again by every driver that can put it there. Not decided: errors the OS reports only at close(2) (Rust's File drops them; no sync_all), poisoned-mutex unwraps after another "
     "thread's panic."
 )
 LEVEL_NOTE = "Undecided: errors surfacing only at close(2); panics caused by a poisoned mutex after another thread panicked."
